@@ -145,7 +145,12 @@ func (m *monC16) TaskEnd(s *Sim, t *Task) {
 	if *can.AutoFail.Enabled && can.AutoFail.CanaryTimeout != nil && can.Duration != nil && can.AutoFail.CanaryTimeout.Duration <= can.Duration.Duration {
 		want = append(want, edsv1.ErrInvalidCanaryTimeout)
 	}
-	if can.ValidationMode == edsv1.ExtendedDaemonSetSpecStrategyCanaryValidationModeManual {
+	// the mode the controller acts on: the one written in the spec, else the controller-level default
+	mode := can.ValidationMode
+	if mode == "" {
+		mode = s.W.DefaultValidationMode
+	}
+	if mode == edsv1.ExtendedDaemonSetSpecStrategyCanaryValidationModeManual {
 		if can.Duration != nil {
 			want = append(want, edsv1.ErrDurationWithManualValidationMode)
 		}
